@@ -66,6 +66,7 @@ func c06Stage(parser, name string) refmodel.Stage {
 }
 
 func c06Check(r *vkit.Run, in c06Input) bool {
+	r.Begin("C06", in)
 	st := c06Stage(in.Parser, in.Stage)
 	rec := mockq.Rec{TS: 7 * sec, Line: in.Line}
 	if in.Pre {
@@ -206,7 +207,7 @@ type c06Val struct {
 	json string // JSON text of the value
 }
 
-var c06JSONVals = []string{`"v"`, `""`, `"q\"x"`, `"two\nlines"`, `"é"`, `5`, `-3`, `1.5`, `1.50`, `true`, `false`, `null`, `{"c":"d"}`, `[1,"x"]`, `{"c":7,"e":[true]}`, `1e3`}
+var c06JSONVals = []string{`"v"`, `""`, `"q\"x"`, `"two\nlines"`, `"é"`, `5`, `-3`, `1.5`, `1.50`, `true`, `false`, `null`, `{"c":"d"}`, `[1,"x"]`, `{"c":7,"e":[true]}`, `1e3`, `[null,1]`, `{"c":[{"d":null}]}`}
 var c06JSONKeys = []string{"a", "b", "a.b", "x y"}
 
 func c06Scalar(v string) bool {
